@@ -283,6 +283,7 @@ def explore_all(calls, limit):
     """stateless DFS over all schedules (each run replays a prefix, then always picks the lowest enabled)"""
     out = []
     stack = [[]]
+    suspects = 0
     while stack and len(out) < limit:
         prefix = stack.pop()
 
@@ -292,6 +293,10 @@ def explore_all(calls, limit):
             return enabled[0]
         obs = run_schedule(calls, choose)
         out.append(obs)
+        if obs["status"] != "ok" or not obs["completed"] or any(x is None for rs in obs["results"] for x in rs):
+            suspects += 1
+            if suspects >= 25:      # the property is already visibly broken: no point in enumerating on
+                break
         chosen = [t for t, _ in obs["decisions"]]
         for i in range(len(prefix), len(chosen)):
             for alt in obs["enabled"][i]:
@@ -349,7 +354,7 @@ def collect(tier):
         exhaustive += [[2, 2]]
     complete = {}
     for calls in exhaustive:
-        obs, done = explore_all(calls, 20000 if tier == "quick" else 200000)
+        obs, done = explore_all(calls, 4000 if tier == "quick" else 200000)
         complete["x".join(map(str, calls))] = {"schedules": len(obs), "exhausted": done}
         groups.append(("all-" + "x".join(map(str, calls)), obs))
     shapes = [[2, 2], [3, 3], [1, 1, 1], [2, 2, 2], [3, 2, 1], [1, 1, 1, 1], [2, 1, 2, 1], [3, 3, 3], [2, 2, 2, 2], [3, 1, 2, 3]]
